@@ -402,6 +402,9 @@ func reportParamResults(c *core.Ctx, res []*traceResult) {
 		if tr == nil || tr.Violated == "" {
 			continue
 		}
+		if tr.Case != nil && knownFor(c, tr) != nil {
+			continue // reported as a known finding (and the rest of the trace re-validated) by checkRunTraces
+		}
 		if tr.Case == nil {
 			c.Machineryf("violation of %s could not be attributed to a run", tr.Violated)
 			continue
